@@ -37,6 +37,7 @@ def one (t : Nat) (m : Mem K) : Mem K := m.write t (fun _ => 1)
 element of the space, `S` = other is a scalar of the field. -/
 inductive Op
   | addE | subE | mulE | divE            -- x + y, x - y, x * y, x / y   (fresh result)
+  | rsubE | rdivE                        -- y - x, y / x via __rsub__/__rtruediv__ (y coerced to an element)
   | addS | subS | rsubS | mulS | divS | rdivS   -- x + c, x - c, c - x, x * c, x / c, c / x
   | iaddE | isubE | imulE | idivE        -- x += y …
   | iaddS | isubS | imulS | idivS        -- x += c …
@@ -53,6 +54,8 @@ def Op.exec (lc : LC K) (op : Op) (x y t : Nat) (c : K) (m : Mem K) : Option (Me
   | .subE => (lc ⟨x, y, t⟩ 1 (-1) m).map (·, t)              -- lincomb(1, self, -1, other, out=tmp)
   | .mulE => some (multiply y x t m, t)                      -- multiply(other, self, out=tmp)
   | .divE => some (divide x y t m, t)                        -- divide(self, other, out=tmp)
+  | .rsubE => (lc ⟨y, x, t⟩ 1 (-1) m).map (·, t)             -- lincomb(1, other, -1, self, out=tmp)
+  | .rdivE => some (divide y x t m, t)                       -- divide(other, self, out=tmp)
   | .addS => (lc ⟨x, t, t⟩ 1 c (one t m)).map (·, t)         -- tmp = one(); lincomb(1, self, other, tmp, out=tmp)
   | .subS => (lc ⟨x, t, t⟩ 1 (-c) (one t m)).map (·, t)      -- lincomb(1, self, -other, tmp, out=tmp)
   | .rsubS =>                                                -- tmp = one(); lincomb(other, tmp, out=tmp);
@@ -85,6 +88,8 @@ def Op.spec (op : Op) (c : K) (u v : K) : K :=
   | .subE | .isubE => u + (-1) * v
   | .mulE | .imulE => v * u
   | .divE | .idivE => u / v
+  | .rsubE => v + (-1) * u
+  | .rdivE => v / u
   | .addS | .iaddS => u + c * 1
   | .subS | .isubS => u + (-c) * 1
   | .rsubS => c * 1 + (-1) * u
